@@ -36,7 +36,7 @@ def run_family(job):
             sample = [paths[int(i * step)] for i in range(keep)]
         else:
             sample = paths
-        return {'name': job['name'], 'entry': job['entry'], 'ok': True, 'paths': len(paths), 'pruned': E.npruned,
+        return {'name': job['name'], 'entry': job['entry'], 'ok': True, 'paths': len(paths), 'pruned': E.npruned, 'cut_by_bound': E.nskipped, 'feasibility_undecided': E.nunsure,
                 'inconclusive': E.inconcl[:20], 'ninconclusive': len(E.inconcl), 'viol': E.viol, 'instr': E.ninstr,
                 'queries': E.nq, 'solver_s': round(E.qt, 3), 'forks': E.nforks, 'branches': E.nbranch, 'wall_s': round(time.time() - t0, 2),
                 'aborted': E.aborted, 'sample': sample, 'covers': E.covers,
